@@ -1,5 +1,6 @@
 import Driver.KeyOps
 import Driver.SerOps
+import Driver.DagOps
 /-
   Line-protocol driver: one operation per input line, one canonical result line per operation.
   Imports Model only (core Lean), so it links as a `lean_exe`.
@@ -15,6 +16,9 @@ def step (st : St) (line : String) : St × String :=
   | some r => (st, r)
   | none =>
   match serOps w with
+  | some r => (st, r)
+  | none =>
+  match dagOps w with
   | some r => (st, r)
   | none => (st, "bad-op")
 
